@@ -237,7 +237,8 @@ structure Defects where
       key is not registered (pinned by `test_index_maintained_on_update`) -/
   indexNotMaintainedOnKeyUpdate : Bool := false
   /-- the unique index holds one entry per key: an INSERT that finds a live entry (of a transaction it does not see)
-      adds nothing, one that finds a delete-marked entry replaces it, a DELETE marks whatever entry carries the key -/
+      adds nothing, one that finds a delete-marked entry or the entry of a transaction in its snapshot's aborted set
+      replaces it, a DELETE marks whatever entry carries the key -/
   indexOneEntryPerKey : Bool := false
   /-- uniqueness is only probed when a statement runs, against the statement's snapshot; nothing is re-checked at
       commit, so two open transactions inserting the same key both commit -/
@@ -307,15 +308,17 @@ def replaceFirst (p : IxEntry → Bool) (new : IxEntry) : Index → Index
   | [] => []
   | e :: es => if p e then new :: es else e :: replaceFirst p new es
 
-/-- index maintenance of an INSERT (`maintain_secondary_indexes`, insert arm) -/
-def ixInsert (D : Defects) (me : Nat) (ix : Index) (table : String) (cols : List Nat) (vals : List Val) (rid : Rid) :
-    Index :=
+/-- index maintenance of an INSERT (`maintain_secondary_indexes`, insert arm); `aborted` = the inserter's snapshot's
+    aborted set: an entry written by one of those transactions (left by a rolled-back INSERT) is taken over -/
+def ixInsert (D : Defects) (me : Nat) (ix : Index) (table : String) (cols : List Nat) (vals : List Val) (rid : Rid)
+    (aborted : List Nat := []) : Index :=
   let k := keyOf cols vals
   let new : IxEntry := ⟨table, cols, k, rid, me, none⟩
   if k.contains .null then ix
   else if D.indexOneEntryPerKey then
     match ix.find? (fun e => e.is table cols k) with
-    | some e => if e.xmax.isSome then replaceFirst (fun e => e.is table cols k) new ix else ix
+    | some e =>
+      if aborted.contains e.xmin || e.xmax.isSome then replaceFirst (fun e => e.is table cols k) new ix else ix
     | none => ix ++ [new]
   else ix ++ [new]
 
@@ -332,14 +335,14 @@ def ixUpdate (D : Defects) (s : Snapshot) (ix : Index) (table : String) (cols : 
     (rid : Rid) : Index :=
   if D.indexNotMaintainedOnKeyUpdate then ix
   else if keyOf cols old == keyOf cols new then ix
-  else ixInsert D s.xid (ixDelete D s ix table cols old rid) table cols new rid
+  else ixInsert D s.xid (ixDelete D s ix table cols old rid) table cols new rid s.aborted
 
 /-- the index after one row-level effect; `v` = the writer's view before the effect -/
 def ixApply (D : Defects) (cat : Catalog) (s : Snapshot) (v : View) (ix : Index) : Effect → Index
   | .ins rid t vals =>
     match findTable cat t with
     | none => ix
-    | some ts => ts.keySets.foldl (fun ix cols => ixInsert D s.xid ix t cols vals rid) ix
+    | some ts => ts.keySets.foldl (fun ix cols => ixInsert D s.xid ix t cols vals rid s.aborted) ix
   | .upd rid c x =>
     match v.find? (fun r => r.rid == rid) with
     | none => ix
